@@ -173,6 +173,17 @@ class Bench:
         self.s = self.m.stock("s")
         self.s.initial_value = 1.0
 
+    @staticmethod
+    def ref_for(spec0, b, tree):
+        spec = dict(spec0)
+        els = dict(spec0["elements"])
+        for k in ("a", "b", "c"):
+            els[k] = {"kind": "constant", "eq": ["num", b[k]]}
+        els["x"] = {"kind": "converter", "eq": tree}
+        spec["elements"] = els
+        spec["arrays"] = {"v": b["v"]}
+        return StrictRef(spec)
+
     def ref(self, tree):
         spec = dict(self.spec)
         els = dict(self.spec["elements"])
@@ -262,6 +273,31 @@ def eval_tree(bench, tree0):
         if not core.close(v, want, rel=1e-9, ab=1e-9):
             return "VIOL", {"context": "converter", "t": t, "got": repr(v), "want": repr(want),
                             "function_string": bench.x.function_string, "binding": bench.b}
+    # the expression reads its operands' *current* values: change a constant and an array entry after the
+    # equation was assigned, evaluate again, restore
+    b2 = dict(bench.b)
+    b2["a"] = bench.b["a"] + 1.25
+    b2["v"] = list(bench.b["v"])
+    b2["v"][1] = bench.b["v"][1] + 2.0
+    try:
+        want2 = Bench.ref_for(bench.spec, b2, bind(tree0, b2)).value("x", 2)
+    except (refsd.RefUndefined, RecursionError):
+        want2 = None
+    if want2 is not None:
+        try:
+            bench.env["a"].equation = b2["a"]
+            bench.env["v"][1] = b2["v"][1]
+            v = bench.x(2)
+            bench.env["a"].equation = bench.b["a"]
+            bench.env["v"][1] = bench.b["v"][1]
+        except Exception as e:
+            bench.fresh()
+            return "rejected", "late-update:" + type(e).__name__
+        if not core.close(v, want2, rel=1e-9, ab=1e-9):
+            fs = bench.x.function_string
+            bench.fresh()
+            return "VIOL", {"context": "operand-updated-after-assignment", "t": 2, "got": repr(v), "want": repr(want2),
+                            "function_string": fs, "binding": bench.b}
     if any(k[0] == "s" for k in exp):
         try:
             bench.s.equation = expr
@@ -347,7 +383,7 @@ def run(ctx):
                 "; distinct = distinct tree; non-trivial = accepted by the DSL and compared with the float "
                 "evaluation under at least one value binding",
         "trees": len(uniq), "outcomes": counts, "rejected_kinds": rej_kinds,
-        "contexts": ["converter at t=2,3", "stock equation (rendered at t-dt) at t=1,2,3"],
+        "contexts": ["converter at t=2,3", "converter again after a constant and an array entry were changed", "stock equation (rendered at t-dt) at t=1,2,3"],
         "bindings_per_tree": 2,
         "samples": samples,
     }, assumptions=["operand values from fixed pools; values on discontinuities (comparison/round/mod ties) "
